@@ -159,6 +159,9 @@ def _direct(R, rng, defn, b, cse, ctx):
         if p_dtype:
             R.stats.inc(f"covariances_handed_over_as_{p_dtype}")
         sd = {s: pt[s] for s in defn["state"]}
+        if gen.outside_domain(defn, pt, pt, float(pt[defn["dt"]])):
+            R.stats.inc("points_skipped_outside_domain")
+            continue
         for sname in defn["sensors"]:
             readings = [str(r) for r in ekf.sensor_models[sname].readings]
             m = len(readings)
